@@ -146,9 +146,9 @@ def check_size(kind, n, expr, limit=3):
 
 # ------------------------------------------------------------------ where the error is raised
 
-BAD = {"TYPE_NOT_SUPPORTED": ["set()", "b'x'", "object()", "1j", "range(3)", "(lambda: 1)"],
+BAD = {"TYPE_NOT_SUPPORTED": ["set()", "b'x'", "object()", "1j", "range(3)", "(lambda: 1)", "DA", "int"],
        "SEQUENCE_TOO_LONG": ["[1, 1, 1, 1, 1]", "(1, 1, 1, 1, 1)", "{'a': 1, 'b': 1, 'c': 1, 'd': 1, 'e': 1}"]}
-DICT_KEYS = ["'a'", "0", "True", "None", "1.5", "(1, 2)", "datetime.date(2020, 1, 2)", "datetime.time(3, 4)", "PurePosixPath('a')", "''",
+DICT_KEYS = ["'a'", "0", "True", "None", "1.5", "(1, 2)", "datetime.date(2020, 1, 2)", "datetime.time(3, 4)", "PurePosixPath('a')", "''", "10**5000",
              "datetime.datetime(2020, 1, 2, 3, 4, 5)", "-1", "'a.b'", "'[0]'"]
 
 
@@ -177,6 +177,29 @@ def check_position(wrapper, code, bad):
                           f"dds_hash({expr}) with hash.max_sequence_size=4 -> {out}, expected DDSException {code} (position {where})",
                           {"mode": "position", "wrapper": wrapper, "code": code, "bad": bad})]
     return []
+
+
+def check_unlimited():
+    """hash.max_sequence_size accepts None (no limit)"""
+    import dds
+    old = dds.get_option("hash.max_sequence_size")
+    r = call_opt(lambda: dds.set_option("hash.max_sequence_size", None))
+    try:
+        if r[0] != "ok":
+            return []   # the option refuses None: nothing to check
+        o = outcome([1, 2, 3])
+        if o[0] != "h":
+            return [Violation(P, f"C05|option_none|{o[1]}", f"with hash.max_sequence_size=None (accepted by set_option), dds_hash([1, 2, 3]) -> {o}", {"mode": "unlimited"})]
+        return []
+    finally:
+        dds.set_option("hash.max_sequence_size", old)
+
+
+def call_opt(f):
+    try:
+        return ("ok", f())
+    except BaseException as e:  # noqa
+        return ("exc", type(e).__name__)
 
 
 # ------------------------------------------------------------------ through dds.keep
@@ -292,6 +315,18 @@ def run(tier, seed):
             for b in (bads if tier != "quick" or "{}" == w else bads[:3]):
                 res.violations += check_position(w, code, b)
                 npos += 1
+    # deep nesting and the unlimited size option: a signature or a coded error, never a low-level exception
+    import dds
+    deep = []
+    for _ in range(5000):
+        deep = [deep]
+    loop = []
+    loop.append(loop)
+    for nm, val in (("nested_5000_deep", deep), ("list_containing_itself", loop)):
+        o = outcome(val)
+        if o[0] not in ("h", "dds"):
+            res.violations.append(Violation(P, f"C05|crash|{o[1]}|{nm}", f"dds_hash of a list {nm.replace('_', ' ')} -> {o}", {"mode": "deep", "which": nm}))
+    res.violations += check_unlimited()
     # keep route: atoms + depth-1 sample, all pairs inside groups of equal keep signature
     nkeep = 0
     with core.Scratch("c05") as scratch:
@@ -349,6 +384,17 @@ def replay(case):
         return check_pair(case["a"], V.ev(case["a"]), case["b"], V.ev(case["b"]))
     if m == "size":
         return check_size(case["kind"], case["n"], case["expr"])
+    if m == "unlimited":
+        return check_unlimited()
+    if m == "deep":
+        v = []
+        if case["which"] == "list_containing_itself":
+            v.append(v)
+        else:
+            for _ in range(5000):
+                v = [v]
+        o = outcome(v)
+        return [Violation(P, f"C05|crash|{o[1]}|{case['which']}", f"-> {o}", case)] if o[0] not in ("h", "dds") else []
     if m == "position":
         return check_position(case["wrapper"], case["code"], case["bad"])
     if m == "seed":
